@@ -700,6 +700,7 @@ func runC19(args []string) int {
 	writeFile(o.Out, "cases_C19.v", "From Coq Require Import ZArith List Bool.\nFrom GnarkV Require Import Std.SumcheckCases.\nImport ListNotations.\n"+
 		fmt.Sprintf("Definition ldecases : list (list Z * Z * Z) := %s.\nDefinition mism_lde := Eval vm_compute in lde_mismatches %s 0 ldecases.\nPrint mism_lde.\n", coqlistNL(ldeCases), zlit(bnQ)))
 	rep.CoqCases = len(ldeCases)
+	c19Poseidon2(rep, rng)
 	// ---- the executable Gallina GKR verifier against the observed in-circuit verifier
 	gk := c19ModelTie(o, rng, rep, topos)
 	const shard = 6
